@@ -228,7 +228,7 @@ def gen_values(rng, k, badp=0.04):
     r = rng.random()
     if r < badp:
         j = rng.choice([x for x in (0, 2, 3, k + 1) if x != k and x != 1])
-    elif r < 0.55 or k == 0:
+    elif r < 0.4 or k == 0:
         j = 1
     else:
         j = k
@@ -252,7 +252,7 @@ def gen_entries(rng, s, lo=0, hi=3):
 
 def gen_lines(ctx, rng, count):
     lines, hist = [], {}
-    ops = ["resample"] * 4 + ["bias", "gain"] + ["delay"] * 4 + ["window", "window", "dwindow"] + ["rdelay"] * 4 + ["gb"] * 2
+    ops = ["resample"] * 4 + ["bias", "gain"] * 2 + ["delay"] * 4 + ["window", "window", "dwindow"] + ["rdelay"] * 4 + ["gb"] * 2
 
     def add(l, tag):
         lines.append(l)
@@ -463,13 +463,18 @@ def oracle(line, facts):
                             return res
         else:
             res.append(("c48:wrong-output-shape", "%s returned shape (%d,%d)" % (fn, on, om)))
-    if op == "window" and n >= 1:
+    if op in ("window", "dwindow") and n >= 1:
         on, om, ot, od = parse_ok(out)
-        lo, hi = [unhex(w) for w in secs[1].split()]
+        if op == "window":
+            lo, hi = [unhex(w) for w in secs[1].split()]
+        else:
+            t2 = [unhex(w) for w in secs[1].split()]
+            dmin, dmax = [unhex(w) for w in secs[2].split()]
+            lo, hi = t2[0] - dmin, t2[-1] - dmax
         want = [i for i in range(n) if lo <= X[i] <= hi]
         got_rows = [[unhex(x) for x in od[r * m:(r + 1) * m]] for r in range(on)]
         if ot != [X[i] for i in want] or got_rows != [rows[i] for i in want]:
-            res.append(("c48:window-wrong-selection", "apply_time_window did not return exactly the samples with min_t <= t <= max_t"))
+            res.append(("c48:window-wrong-selection", "%s did not return exactly the samples with min_t <= t <= max_t (%r, %r)" % (fn, lo, hi)))
     return res
 
 
@@ -530,7 +535,7 @@ def describe(line):
         op = d["op"]
         if op in ("bias", "gain", "delay"):
             d["sensor_name"] = secs[1]
-            d["value"] = [unhex(w) for w in secs[2].split()]
+            d["delay" if op == "delay" else "value"] = [unhex(w) for w in secs[2].split()]
         elif op in ("rdelay", "rdelaycol", "resample"):
             d["times_arg"] = [unhex(w) for w in secs[1].split()]
             if op != "resample":
@@ -539,6 +544,11 @@ def describe(line):
                 d["predicted_data"] = secs[4].split()[0] == "1"
         elif op == "window":
             d["min_t"], d["max_t"] = [unhex(w) for w in secs[1].split()]
+        elif op == "dwindow":
+            d["ts_delayed_times"] = [unhex(w) for w in secs[1].split()]
+            d["min_delay"], d["max_delay"] = [unhex(w) for w in secs[2].split()]
+        elif op == "gb":
+            d["target_label"], d["gains"], d["biases"] = secs[1], secs[2], secs[3]
         return d
     except Exception:
         return {"line": line[:400]}
